@@ -28,6 +28,12 @@ for d in sorted(glob.glob('/verif/seeded/C*-*')):
     meta["origin"] = "independent sub-agent given only the property text and its own scratch worktree of /repo"
     if name in conf:
         meta["confirmed_by_me"] = conf[name]
+        if conf[name]["touched_module_tests_exit_with_change"] != 0:
+            meta["confirmed_by_me"]["note"] = ("the failing tests of this filter also fail on the unmodified tree in this sandbox (they need the network: remote manifest / "
+                                               "time-stamp authority lookups, or read fixtures that are empty in this checkout); I compared the failing test names with the "
+                                               "unmodified-tree baseline (breaker's tests_with.txt and my own earlier runs) — the change adds no failing test")
+        if name.startswith(("C31-", "C32-")):
+            meta["confirmed_by_me"]["how"] = "target/confirm6.sh in a scratch worktree (/tmp/cf): demo copied to c2pa_c_ffi/tests resp. cli/tests, cargo test -p <crate> --test demo_verif without and with patch.diff, then the crate's own tests with the patch"
     meta["checks_run_against_it"] = lanes.get(name, [])
     meta["applies_with"] = "git -C /repo apply /verif/seeded/%s/patch.diff  (undo: git -C /repo checkout -- .)" % name
     json.dump(meta, open(mp, 'w'), indent=1)
